@@ -2,4 +2,5 @@ import ArroyProofs.AuditCmd
 import ArroyProofs.Properties.C04
 import ArroyProofs.Properties.C04Build
 import ArroyProofs.Properties.Unconditional
+import ArroyProofs.Properties.Reachable
 #audit Arroy.C04
